@@ -117,6 +117,15 @@ def search(run, info):
                                       "    PROGRAM helper_inst WITH %s : HelperProg_t;\n  END_RESOURCE\nEND_CONFIGURATION\n" % (
                                           rng.choice(["no_such_task", "NO_SUCH_TASK"]), "no_such_task")]
             files = [("bad.st", ftext)] + [("c%d.st" % k, t) for k, t in enumerate(comps)]
+            # company that a rule answers "not implemented" for (a constant array with values, a constant of a structure type): the
+            # set fails anyway on the unchanged tree; what must not happen is that such an answer replaces or hides the fault's
+            if code.startswith("P00"):
+                ni = rng.choice(["FUNCTION_BLOCK HelperNi\nVAR CONSTANT\n  Limits : ARRAY[1..2] OF INT := [1, 2];\nEND_VAR\nEND_FUNCTION_BLOCK\n",
+                                 "TYPE\n  HelperPt : STRUCT x : INT; END_STRUCT;\nEND_TYPE\nFUNCTION_BLOCK HelperNi\nVAR CONSTANT\n  origin : HelperPt;\nEND_VAR\nEND_FUNCTION_BLOCK\n"])
+                fl = [("bad.st", ftext), ("ni.st", ni)]
+                for o in ((0, 1), (1, 0)):
+                    meta.append((code, what + " (beside a declaration a rule does not implement)", [fl[k] for k in o], "files"))
+                    cases.append({"id": len(cases), "op": "project", "files": [[n, hexs(t)] for n, t in [fl[k] for k in o]]})
             orders = list(itertools.permutations(range(len(files))))
             if len(orders) > 6:
                 orders = rng.sample(orders, 6 if run.tier == "quick" else 24)
